@@ -1,13 +1,19 @@
 #!/bin/bash
-# tools_seed_run.sh <seed-id> <check>... : apply a seeded change to /repo, run checks (quick), undo.
+# tools_seed_run.sh <seed-id> <check>... : run checks (quick) against a seeded change.
+# The change is applied to a scratch worktree of /repo HEAD (VERIF_REPO), so /repo itself
+# and any background run using it stay untouched; equivalent to
+#   git -C /repo apply <patch>; ./vcheck run <check>; git -C /repo checkout -- .
 id=$1; shift
+wt=/tmp/sr-$id
+git -C /repo worktree remove --force $wt 2>/dev/null; rm -rf $wt
+git -C /repo worktree add -q --detach $wt HEAD || exit 2
+git -C $wt apply /verif/seeded/$id/patch.diff || { echo "patch does not apply"; git -C /repo worktree remove --force $wt; exit 2; }
 cd /verif
-git -C /repo status --short | grep -q . && { echo "/repo not clean"; exit 2; }
-git -C /repo apply /verif/seeded/$id/patch.diff || exit 2
+mkdir -p /tmp/sr-out
 for c in "$@"; do
-  out=$(./vcheck run $c 2>&1); rc=$?
-  echo "SEED $id CHECK $c rc=$rc :: $(echo "$out" | grep -E '^check|VIOLATION' | head -2 | tr '\n' ' ')"
-  echo "$out" | grep -A3 VIOLATION | head -6
+  out=$(VERIF_REPO=$wt VERIF_EVIDENCE_DIR=/tmp/sr-out VERIF_REPLAY_DIR=/tmp/sr-out VERIF_WORK_SUFFIX=-seed ./vcheck run $c 2>&1); rc=$?
+  echo "SEED $id CHECK $c rc=$rc :: $(echo "$out" | grep -E '^check' | head -1)"
+  echo "$out" | grep -A2 VIOLATION | grep -v "have:\|want:" | cut -c1-400 | head -5
+  [ $rc = 2 ] && echo "$out" | tail -5
 done
-git -C /repo checkout -- .
-rm -f /verif/replays/*.json
+git -C /repo worktree remove --force $wt; rm -rf $wt /tmp/sr-out
